@@ -5,6 +5,7 @@ G2  defined before use: register operands are looked up in the set-bitmap and th
     SSA operands are compared with the running wire index
 G3  eval (and Evaluator::run) compare party count and per-party bit counts before indexing the inputs
 G4  sibling consistency: every comparison of a circuit field against the same bound uses the same comparator
+G7  in the register evaluator register-valued fields index only the register file and Input.party / Input.input only the inputs
 G6  eval's storage is allocated with exactly the size validation bounds indices by (max_reg_count; inputs + gates)
 G5  no index position (or slice bound) into circuit-sized storage in eval is computed from the supplied inputs
 """
@@ -350,6 +351,41 @@ def rule_g6(ctx):
     return res
 
 
+def rule_g7(ctx):
+    """A checked field indexes the storage it was checked against: registers index the register file, party / bit numbers the inputs."""
+    res = RuleResult("G7", "register-valued fields index only the register file, Input.party / Input.input only the inputs")
+    ev = "register_circuit::Circuit::eval"
+    ids = [ev] + sorted(ctx.cg.closures_of.get(ev, ()))
+    n = 0
+    for fid in ids:
+        body = ctx.body(fid)
+        inputs_args = [l for l in range(1, body.arg_count + 1) if "[std::vec::Vec<bool>]" in body.locals[l]["ty"]]
+        for b, t in body.calls():
+            if t["func"].get("declared") not in INDEX_CALLS or len(t["args"]) != 2 or body.blocks[b]["cleanup"]:
+                continue
+            keys = [(r, tuple(p)) for (r, p) in body.trace_operand(t["args"][1]) if r == SELF1 and p]
+            if not keys:
+                continue
+            n += 1
+            coll = body.trace_operand(t["args"][0])
+            coll_deep = body.deep_sources(t["args"][0], 3)
+            is_regfile = any(r[0] == "call" and mir.last_seg(r[2] or "") == "from_elem" and
+                             any(rr == SELF1 and tuple(pp) == ("max_reg_count",) for (rr, pp) in body.trace_operand(body.term(r[1])["args"][1])) for (r, p) in coll)
+            on_inputs = any(r in [("arg", a) for a in inputs_args] for (r, p) in coll) and not any(r[0] == "call" and mir.last_seg(r[2] or "") in ("concat", "flatten", "collect") for (r, p) in coll_deep)
+            for (r, p) in keys:
+                kind = "input position" if p[-1] in ("party", "input") else "register"
+                ok = (kind == "register" and is_regfile) or (kind == "input position" and on_inputs)
+                if ok:
+                    res.ok({"site": "line %d" % t["sp"][1], "field": ".".join(norm(p)), "verdict": "%s indexes %s" % (kind, "the register file" if kind == "register" else "the inputs")})
+                else:
+                    res.bad(Finding("G7", fid, "%s %s indexes the wrong storage" % (kind, ".".join(norm(p))),
+                                    "validation bounds this field by the size of %s, but eval uses it to index something else: the bound says nothing about that vector" % (
+                                        "the register file (max_reg_count)" if kind == "register" else "the inputs (parties / bits per party)"), t["sp"]))
+    if n < 6 and not res.findings:
+        raise AnchorMissing("G7: expected the index sites of the register evaluator (7 on the pinned tree), found %d" % n)
+    return res
+
+
 def rule_g2(ctx):
     res = RuleResult("G2", "defined before use: register operands looked up in the written-set before the destination is marked; SSA operands compared with the running index")
     va = "register_circuit::Circuit::validate"
@@ -540,4 +576,4 @@ def rule_g4(ctx):
 
 
 def run(ctx):
-    return ctx.run_rules([rule_g1, rule_g2, rule_g3, rule_g4, rule_g5, rule_g6])
+    return ctx.run_rules([rule_g1, rule_g2, rule_g3, rule_g4, rule_g5, rule_g6, rule_g7])
